@@ -19,6 +19,7 @@ pub struct Runner {
     pub stmts: usize,
     pub errors: usize,
     pub panics: Vec<String>,
+    pub sess_tx: std::collections::HashMap<u32, u64>,
 }
 
 pub fn out_json(o: &Out) -> Value {
@@ -31,7 +32,7 @@ pub fn out_json(o: &Out) -> Value {
 impl Runner {
     pub fn new(dir: PathBuf, t: Trace) -> Self {
         let dbfile = dir.join("db.axm");
-        Self { eng: Eng::new(), t, dir, dbfile, next_tx: 1, open_sessions: vec![], hung: false, stmts: 0, errors: 0, panics: vec![] }
+        Self { eng: Eng::new(), t, dir, dbfile, next_tx: 1, open_sessions: vec![], hung: false, stmts: 0, errors: 0, panics: vec![], sess_tx: Default::default() }
     }
 
     fn note(&mut self, o: &Out) {
@@ -108,7 +109,7 @@ impl Runner {
         let o = self.eng.begin(s);
         self.note(&o);
         self.t.ev(json!({"ev": "begin", "s": s, "tx": tx, "out": o.json()}));
-        if o.is_ok() { self.open_sessions.push(s); }
+        if o.is_ok() { self.open_sessions.push(s); self.sess_tx.insert(s, tx); }
         o
     }
 
